@@ -1764,10 +1764,19 @@ func genC19Seq(c *Ctx) {
 			var pendingAns []any
 			maxFlight := 0
 			issued := 0
+			type pp struct{ pushed, pulled string }
+			var used []pp // users toggle between a few values: one change in three repeats an earlier payload
 			for issued < nch || len(pendingAns) > 0 {
 				if issued < nch && (len(pendingAns) == 0 || r.IntN(5) < 3) {
-					p := g.payload()
-					pushed, pulled := c19PushPull(r, p)
+					var pushed, pulled string
+					if len(used) > 0 && r.IntN(3) == 0 {
+						u := used[r.IntN(len(used))]
+						pushed, pulled = u.pushed, u.pulled
+						c.Count("seq.overlap-repeat")
+					} else {
+						pushed, pulled = c19PushPull(r, g.payload())
+						used = append(used, pp{pushed, pulled})
+					}
 					events = append(events, map[string]any{"k": "change", "txt": pushed})
 					issued++
 					if cfg == true && first["client"] == nil {
@@ -1933,6 +1942,42 @@ func genC19Targeted(c *Ctx) {
 			}
 		}
 		c.Count("seq.targeted-push")
+		c.Emit("c19.seq", c19SeqCase(c, events))
+	}
+	// (5) back to an overtaken value: change to A (answer delayed), change to B (answered first),
+	// the late answer A arrives and is dropped, the user changes back to A: A must be in force.
+	// (Seed r6-C19 remembered the dropped answer as "the previous one" and skipped the repetition.)
+	for i := 0; i < c.N(30, 600); i++ {
+		events := []any{map[string]any{"k": "init", "cfg": true, "txt": "null"}}
+		pa, qa := c19PushPull(r, g.settingsMap())
+		pb, qb := c19PushPull(r, g.settingsMap())
+		events = append(events, map[string]any{"k": "change", "txt": pa}, map[string]any{"k": "change", "txt": pb})
+		late := map[string]any{"k": "answer", "task": 0, "txts": []any{qa}}
+		first := map[string]any{"k": "answer", "task": 1, "txts": []any{qb}}
+		events = append(events, first)
+		if r.IntN(4) == 0 {
+			events = append(events, map[string]any{"k": "observe"})
+		}
+		switch r.IntN(3) {
+		case 0: // the late answer comes before the user changes back
+			events = append(events, late, map[string]any{"k": "change", "txt": pa},
+				map[string]any{"k": "answer", "task": 0, "txts": []any{qa}})
+		case 1: // ... or while the third pull is already in flight, answered after it
+			events = append(events, map[string]any{"k": "change", "txt": pa}, late,
+				map[string]any{"k": "answer", "task": 0, "txts": []any{qa}})
+		default: // ... or the late answer is an error / empty
+			late = map[string]any{"k": "answer", "task": 0, "err": true}
+			events = append(events, late, map[string]any{"k": "change", "txt": pa},
+				map[string]any{"k": "answer", "task": 0, "txts": []any{qa}})
+		}
+		events = append(events, map[string]any{"k": "observe"})
+		if r.IntN(2) == 0 {
+			// and once more to B and back
+			events = append(events, map[string]any{"k": "change", "txt": pb}, map[string]any{"k": "answer", "task": 0, "txts": []any{qb}},
+				map[string]any{"k": "change", "txt": pa}, map[string]any{"k": "answer", "task": 0, "txts": []any{qa}},
+				map[string]any{"k": "observe"})
+		}
+		c.Count("seq.back-to-overtaken")
 		c.Emit("c19.seq", c19SeqCase(c, events))
 	}
 	// (4) three and more pulls in flight, every order of the answers
